@@ -29,6 +29,9 @@ import   "github.com/pbenner/autodiff/algorithm/householderTridiagonalization"
 
 /* -------------------------------------------------------------------------- */
 
+// maximum number of QR sweeps per eigenvalue before the algorithm gives up
+const maxSweeps = 1000
+
 type Epsilon struct {
   Value float64
 }
@@ -273,7 +276,10 @@ func qrAlgorithm(inSitu *InSitu, epsilon float64) (Matrix, Matrix, error) {
   }
 
   // apply Francis QR steps
-  for p, q := 0, 0; q < n-1; {
+  for p, q, iter := 0, 0, 0; q < n-1; iter++ {
+    if iter >= maxSweeps*n {
+      return nil, nil, fmt.Errorf("QR algorithm did not converge")
+    }
 
     for i := 0; i < n-1; i++ {
       h11 := h.ConstAt(i  ,i  ).GetFloat64()
@@ -306,7 +312,10 @@ func qrAlgorithm(inSitu *InSitu, epsilon float64) (Matrix, Matrix, error) {
       continue
     }
     // run QR steps until convergence
-    for {
+    for iter := 0; ; iter++ {
+      if iter >= maxSweeps {
+        return nil, nil, fmt.Errorf("QR algorithm did not converge")
+      }
       h11 := h.ConstAt(i  ,i  ).GetFloat64()
       h21 := h.ConstAt(i+1,i  ).GetFloat64()
       h22 := h.ConstAt(i+1,i+1).GetFloat64()
